@@ -21,7 +21,7 @@ def four_col_rows(rnd, nodes):
 class C09(PropBase):
     id = 'C09'
     obs = {'wsnap', 'wsnaptext', 'rtsnap', 'rsnap', 'has', 'inter'}
-    rule = ('removal-enabled graph (both classes, reciprocal pairs, self-loops, multi-run timelines; int or string ids) written with '
+    rule = ('removal-enabled graph (both classes, reciprocal pairs, self-loops, multi-run timelines; int, ASCII string or non-ASCII string ids) written with '
             'write_snapshots to a path (plain/.gz/.bz2) or an open binary file object, delimiters " " "," TAB ";", encodings utf-8/latin-1; '
             'the decoded text must be exactly one row u<delim>v<delim>t per interaction and present instant (orientation kept when directed); '
             'read_snapshots of that output must give the same presence at every instant; generated four-column rows u v t e must read as '
